@@ -6,8 +6,7 @@
   Proved here: what the client writes decodes at the relay to exactly (peer, payload) for both
   encodings; what the relay forwards is handed up with exactly the payload and the peer; data held
   for a peer without permission is appended in order and flushed completely in FIFO order;
-  the unwrap path reads inside the received packet when the ChannelData length field is honest
-  (`_partial`) — and outside it otherwise (witness: the defect recorded in KNOWN_FINDINGS).
+  the unwrap path reads inside the received packet for every datagram (55a791e).
 -/
 import Nice.Spec.Relay
 set_option maxRecDepth 8000
@@ -167,24 +166,74 @@ example : decodeSend ((sendIndication { ipv6 := false, addr := [10, 1, 1, 1], po
     (List.replicate 12 7)).getD []) = some ({ ipv6 := false, addr := [10, 1, 1, 1], port := 1111 }, [104, 101, 108, 108, 111]) := by
   decide
 
-/-- **what the relay forwards is handed up intact** (`_partial`): the Data indication a
-    standards-following relay builds for a datagram from peer `p` parses back, in the client, to that
-    peer and exactly the payload — for every well-formed IPv4 / IPv6 peer, payload and transaction id.
-    Partial: the peer table holds that one peer (with several peers the parser takes the first entry
-    whose XOR-PEER-ADDRESS encoding matches; that different well-formed addresses encode differently is
-    not proved here — see the 4-peer example below and the differential tie). -/
-theorem C16_unwrap_inverse_partial (p : PeerAddr) (data txid : Bytes) (hp : PeerAddr.WF p) (ht : txid.length = 12)
-    (hd : data.length ≤ 65000) : parseDataIndication [p] (forwardData p data txid) = some (0, data) := by
-  have hvl : (xorPeerValue p txid).length = 4 + p.addr.length := by
-    simp only [xorPeerValue, List.length_append, List.length_cons, List.length_nil, xorBytes_length]; rfl
-  have ha := hp.1
-  have hv20 : (xorPeerValue p txid).length ≤ 20 := by rw [hvl, ha]; split <;> omega
+theorem be16b_inj (a b : Nat) (ha : a < 65536) (hb : b < 65536) (h : be16b a = be16b b) : a = b := by
+  have h1 := be16_be16b a ha
+  have h2 := be16_be16b b hb
+  rw [h] at h1; omega
+
+theorem xorBytes_cancel (a b k : Bytes) (ha : a.length ≤ k.length) (hb : b.length ≤ k.length)
+    (h : xorBytes a k = xorBytes b k) : a = b := by
+  have := congrArg (fun x => xorBytes x k) h
+  simp only [xorBytes_invol a k ha, xorBytes_invol b k hb] at this
+  exact this
+
+/-- different well-formed peer addresses have different XOR-PEER-ADDRESS encodings -/
+theorem xorPeerValue_inj (p q : PeerAddr) (txid : Bytes) (hp : PeerAddr.WF p) (hq : PeerAddr.WF q) (ht : txid.length = 12)
+    (h : xorPeerValue p txid = xorPeerValue q txid) : p = q := by
+  obtain ⟨pa, pp⟩ := hp
+  obtain ⟨qa, qp⟩ := hq
+  simp only [xorPeerValue, List.cons_append, List.nil_append, List.cons.injEq, true_and] at h
+  obtain ⟨hfam, hrest⟩ := h
+  have hv6 : p.ipv6 = q.ipv6 := by
+    cases hp6 : p.ipv6 <;> cases hq6 : q.ipv6 <;> simp [hp6, hq6] at hfam <;> rfl
+  have hl1 : (xorBytes (be16b p.port) STUN_MAGIC_COOKIE).length = 2 := by rw [xorBytes_length]; rfl
+  have hl2 : (xorBytes (be16b q.port) STUN_MAGIC_COOKIE).length = 2 := by rw [xorBytes_length]; rfl
+  have hsplit := List.append_inj hrest (by rw [hl1, hl2])
+  have hport : p.port = q.port :=
+    be16b_inj _ _ pp qp (xorBytes_cancel _ _ _ (by simp [be16b, STUN_MAGIC_COOKIE]) (by simp [be16b, STUN_MAGIC_COOKIE]) hsplit.1)
+  have hk : (STUN_MAGIC_COOKIE ++ txid).length = 16 := by simp [STUN_MAGIC_COOKIE, ht]
+  have haddr : p.addr = q.addr :=
+    xorBytes_cancel _ _ _ (by rw [hk, pa]; split <;> omega) (by rw [hk, qa]; split <;> omega) hsplit.2
+  cases p; cases q; simp_all
+
+theorem findSome_range_first {β : Type} (f : Nat → Option β) (n i : Nat) (y : β) (hi : i < n) (hfi : f i = some y)
+    (hbefore : ∀ j, j < i → f j = none) : (List.range n).findSome? f = some y := by
+  induction n with
+  | zero => omega
+  | succ n ih =>
+    rw [List.range_succ, List.findSome?_append]
+    by_cases hin : i < n
+    · rw [ih hin]; rfl
+    · have : i = n := by omega
+      subst this
+      have hnone : (List.range i).findSome? f = none := by
+        rw [List.findSome?_eq_none_iff]
+        intro x hx
+        exact hbefore x (List.mem_range.mp hx)
+      simp [hnone, hfi]
+
+/-- **what the relay forwards is handed up intact** (full strength): for any table of well-formed
+    peers, the Data indication a standards-following relay builds for a datagram from the peer at index
+    `i` (its first occurrence in the table) parses back, in the client, to that index and exactly the
+    payload — IPv4 / IPv6, every payload up to 65000 bytes, every transaction id. -/
+theorem C16_unwrap_inverse (peers : List PeerAddr) (i : Nat) (p : PeerAddr) (data txid : Bytes)
+    (hi : peers[i]? = some p) (hwf : ∀ q ∈ peers, PeerAddr.WF q) (hfirst : ∀ j, j < i → peers[j]? ≠ some p)
+    (ht : txid.length = 12) (hd : data.length ≤ 65000) :
+    parseDataIndication peers (forwardData p data txid) = some (i, data) := by
+  have hp : PeerAddr.WF p := hwf p (List.mem_of_getElem? hi)
+  have hvl : ∀ q, PeerAddr.WF q → (xorPeerValue q txid).length = 4 + q.addr.length ∧ (xorPeerValue q txid).length < 65536 := by
+    intro q hq
+    have h1 : (xorPeerValue q txid).length = 4 + q.addr.length := by
+      simp only [xorPeerValue, List.length_append, List.length_cons, List.length_nil, xorBytes_length]; rfl
+    refine ⟨h1, ?_⟩
+    rw [h1, hq.1]; split <;> omega
   generalize hm : forwardData p data txid = m
   generalize hbody : attr 0x0012 (xorPeerValue p txid) ++ attr 0x0013 data = body at *
   have hm' : m = [0x00, 0x17] ++ be16b body.length ++ cookie ++ txid ++ body := by
     rw [← hm, ← hbody]; rfl
   have hbl : body.length < 65536 := by
-    rw [← hbody]; simp only [List.length_append, attr_length, padOf]; omega
+    have := (hvl p hp).1
+    rw [← hbody]; simp only [List.length_append, attr_length, padOf, this, hp.1]; split <;> omega
   have h1 : m.take 2 = [0x00, 0x17] := by rw [hm']; rfl
   have h2 : (m.drop 4).take 4 = STUN_MAGIC_COOKIE := by rw [hm']; simp [be16b, STUN_MAGIC_COOKIE, cookie]
   have h3 : be16 (m.getD 2 0) (m.getD 3 0) = body.length := by
@@ -196,19 +245,64 @@ theorem C16_unwrap_inverse_partial (p : PeerAddr) (data txid : Bytes) (hp : Peer
   have h5 : m.drop 20 = body := by
     have : m = ([0x00, 0x17] ++ be16b body.length ++ cookie ++ txid) ++ body := by rw [hm']
     rw [this, List.drop_left' (by simp [be16b, cookie, ht])]
-  have h6 : body.take (attr 0x0012 (xorPeerValue p txid)).length = attr 0x0012 (xorPeerValue p txid) := by
-    rw [← hbody, List.take_left' rfl]
-  have h7 : body.drop (attr 0x0012 (xorPeerValue p txid)).length = attr 0x0013 data := by
-    rw [← hbody, List.drop_left' rfl]
   have h8 : (attr 0x0013 data).take 2 = [0x00, 0x13] := by simp [attr_eq, be16b]
   have h9 : be16 ((attr 0x0013 data).getD 2 0) ((attr 0x0013 data).getD 3 0) = data.length := by
     have := be16_be16b data.length (by omega)
     rw [attr_eq]; simpa [be16b] using this
   have h10 : ((attr 0x0013 data).drop 4).take data.length = data := by
     rw [attr_eq]; simp [be16b]
-  simp only [parseDataIndication, h1, h2, h3, h4, h5, bne_self_eq_false, Bool.false_eq_true, Bool.or_self, ↓reduceIte,
-    List.length_cons, List.length_nil, Nat.zero_add, List.range_one, List.findSome?_cons, List.getElem?_cons_zero, h6, h7,
-    h8, h9, h10, beq_self_eq_true, Bool.and_self, List.findSome?_nil]
+  simp only [parseDataIndication, h1, h2, h3, h4, h5, bne_self_eq_false, Bool.false_eq_true, Bool.or_self, ↓reduceIte]
+  have hilt : i < peers.length := by
+    rcases Nat.lt_or_ge i peers.length with h | h
+    · exact h
+    · rw [List.getElem?_eq_none h] at hi; cases hi
+  apply findSome_range_first _ peers.length i (i, data) hilt
+  · -- the entry itself matches
+    have h6 : body.take (attr 0x0012 (xorPeerValue p txid)).length = attr 0x0012 (xorPeerValue p txid) := by
+      rw [← hbody, List.take_left' rfl]
+    have h7 : body.drop (attr 0x0012 (xorPeerValue p txid)).length = attr 0x0013 data := by
+      rw [← hbody, List.drop_left' rfl]
+    simp only [hi, h6, h7, h8, h9, h10, bne_self_eq_false, Bool.false_eq_true, ↓reduceIte, beq_self_eq_true, Bool.and_self]
+  · -- no earlier entry matches
+    intro j hj
+    cases hpj : peers[j]? with
+    | none => rfl
+    | some q =>
+      simp only
+      have hq : PeerAddr.WF q := hwf q (List.mem_of_getElem? hpj)
+      by_cases hpre : body.take (attr 0x0012 (xorPeerValue q txid)).length = attr 0x0012 (xorPeerValue q txid)
+      · exfalso
+        -- equal prefixes => equal length fields => equal attributes => equal addresses
+        have hlq := hvl q hq
+        have hlp := hvl p hp
+        have e2 : be16 (body.getD 2 0) (body.getD 3 0) = (xorPeerValue p txid).length := by
+          have := be16_be16b (xorPeerValue p txid).length hlp.2
+          rw [← hbody, attr_eq]; simpa [be16b] using this
+        have e2q : be16 ((attr 0x0012 (xorPeerValue q txid)).getD 2 0) ((attr 0x0012 (xorPeerValue q txid)).getD 3 0) =
+            (xorPeerValue q txid).length := by
+          have := be16_be16b (xorPeerValue q txid).length hlq.2
+          rw [attr_eq]; simpa [be16b] using this
+        have hqlen4 : 4 ≤ (attr 0x0012 (xorPeerValue q txid)).length := by rw [attr_length]; omega
+        have hg : ∀ k, k < 4 → (attr 0x0012 (xorPeerValue q txid)).getD k 0 = body.getD k 0 := by
+          intro k hk
+          rw [← hpre]
+          simp only [List.getD_eq_getElem?_getD]
+          rw [List.getElem?_take_of_lt (by omega)]
+        rw [hg 2 (by omega), hg 3 (by omega), e2] at e2q
+        have hlen_eq : (attr 0x0012 (xorPeerValue q txid)).length = (attr 0x0012 (xorPeerValue p txid)).length := by
+          rw [attr_length, attr_length, ← e2q]
+        have hattr : attr 0x0012 (xorPeerValue q txid) = attr 0x0012 (xorPeerValue p txid) := by
+          rw [← hpre, hlen_eq, ← hbody, List.take_left' rfl]
+        have hval : xorPeerValue q txid = xorPeerValue p txid := by
+          have := congrArg (fun l => (l.drop 4).take (xorPeerValue p txid).length) hattr
+          simp only [attr_eq] at this
+          have t1 : ∀ (v : Bytes) (n : Nat), n = v.length →
+              ((be16b 0x0012 ++ (be16b v.length ++ (v ++ List.replicate (padOf v.length) 0))).drop 4).take n = v := by
+            intro v n hn; subst hn; simp [be16b]
+          rw [t1 _ _ e2q, t1 _ _ rfl] at this
+          exact this
+        exact hfirst j hj (by rw [hpj, xorPeerValue_inj q p txid hq hp ht hval])
+      · simp [hpre]
 
 /-- the driver's table (IPv4, IPv4, IPv6, IPv4 with another port): the third peer is recognised -/
 example :
@@ -243,6 +337,7 @@ theorem C16_channeldata_decodes (chan : Nat) (data : Bytes) (hc : 0x4000 ≤ cha
 /-- **ChannelData from the relay is handed up intact**: on a bound channel, payload and peer come
     back exactly and no read leaves the packet. -/
 theorem C16_unwrap_channeldata (s : St) (chan peer : Nat) (data : Bytes) (src : Option Nat) (hf : s.fault = false)
+    (hstd : s.compat ≠ .google)
     (hb : s.channels.find? (·.2 == chan) = some (peer, chan)) (hc : chan < 65536) (hd : data.length < 65536) :
     unwrapData s (forwardChannel chan data) src = ((some peer, data), s) := by
   have hne : s.channels ≠ [] := by intro h; rw [h] at hb; simp at hb
@@ -256,11 +351,11 @@ theorem C16_unwrap_channeldata (s : St) (chan peer : Nat) (data : Bytes) (src : 
     cases hcs : s.channels with
     | nil => exact absurd hcs hne
     | cons c0 cs => rfl
-  have c1 : ¬ (4 + data.length < 2) := by omega
   have c2 : ¬ (4 + data.length < 4) := by omega
-  have c3 : min (4 + data.length) data.length = data.length := by omega
+  have c3 : min data.length (4 + data.length - 4) = data.length := by omega
   have c4 : ¬ (4 + data.length > 4 + data.length) := by omega
-  simp only [unwrapData, hie, Bool.false_eq_true, ↓reduceIte, hl, h1, h2, hb, c1, c2, c3, c4]
+  have hng : (s.compat == Compat.google) = false := by simpa using hstd
+  simp only [unwrapData, hng, hie, Bool.false_eq_true, Bool.false_or, decide_eq_true_eq, ↓reduceIte, hl, h1, h2, hb, c2, c3, c4]
   simp [forwardChannel, be16b]
 
 /-! ### held data -/
@@ -318,6 +413,27 @@ theorem C16_held_not_lost (s : St) (peer : Nat) (items : List (Bytes × Bool))
     simp only [List.mem_filter, bne_iff_ne, ne_eq] at hx
     simp [hx.2]
 
+/-- … **or timed out**: when the CreatePermission request runs out of retransmissions
+    (`priv_retransmissions_create_permission_tick_unlocked`, TIMEOUT branch) the permission is assumed
+    and the same complete, in-order flush happens. -/
+theorem C16_timeout_flushes (s : St) (seq peer : Nat) (items : List (Bytes × Bool))
+    (h : s.queues.find? (·.1 == peer) = some (peer, items)) (hu : ∀ it ∈ items, it.2 = false) :
+    (cpTimeout s seq peer).2 = items.map (fun it => Down.raw it.1) ∧
+    (cpTimeout s seq peer).1.queues.find? (·.1 == peer) = none ∧
+    peer ∈ (cpTimeout s seq peer).1.perms := by
+  have := C16_held_not_lost { s with cpReqs := markUsed s.cpReqs seq, sentPerms := s.sentPerms.filter (· != peer), pendPerms := s.pendPerms.filter (· != seq), perms := s.perms ++ [peer] } peer items h hu
+  refine ⟨this.1, this.2, ?_⟩
+  simp [cpTimeout, dequeueAll, h]
+
+/-- non-vacuity of the time-out path on the clock: 500 + 1000 + 500 ms after the request, the held
+    payload goes out -/
+example :
+    let s0 : St := { compat := .rfc5766, peers := [{ ipv6 := false, addr := [10, 1, 1, 1], port := 1111 }] }
+    let s1 := (send s0 0 [[1, 2]] false).2
+    let s2 := (advance (advance (advance s1 500).2 1000).2 499).2
+    (s2.queues.map fun e => e.2.length) = [1] ∧ (advance s2 1).1.down.length = 1 ∧ (advance s2 1).2.perms = [0] := by
+  decide
+
 /-- non-vacuity: two sends without permission are held in order and flushed in order -/
 example :
     let s0 : St := { compat := .rfc5766, peers := [{ ipv6 := false, addr := [10, 1, 1, 1], port := 1111 }] }
@@ -328,29 +444,38 @@ example :
 
 /-! ### the receive path and the packet boundary -/
 
-/-- **no fault when the length field is honest** (`_partial`): with no channel bound, or with a
-    packet of at least 4 bytes whose announced length fits the packet, `nice_udp_turn_socket_parse_recv`'s
-    ChannelData path reads only inside the received packet. -/
-theorem C16_recv_no_fault_partial (s : St) (b : Bytes) (src : Option Nat) (hf : s.fault = false)
-    (h : s.channels = [] ∨ (4 ≤ b.length ∧ 4 + be16 (b.getD 2 0) (b.getD 3 0) ≤ b.length)) :
-    (unwrapData s b src).2.fault = false := by
-  rcases h with h | ⟨h4, hl⟩
-  · simp [unwrapData, h, hf]
-  · by_cases hie : s.channels.isEmpty = true
-    · simp [unwrapData, hie, hf]
-    · have c1 : ¬ (b.length < 2) := by omega
-      have c2 : ¬ (b.length < 4) := by omega
-      have c3 : ¬ (4 + min b.length (be16 (b.getD 2 0) (b.getD 3 0)) > b.length) := by omega
-      simp only [unwrapData, hie, Bool.false_eq_true, ↓reduceIte, c1, c2, c3]
-      cases hfind : List.find? (fun x => x.2 == be16 (b.getD 0 0) (b.getD 1 0)) s.channels with
-      | none => exact hf
-      | some pc => exact hf
+/-- **no relay datagram makes the socket read outside the received packet** (full strength,
+    55a791e): for every packet `b` from any source, any set of bound channels — runts and lying
+    length fields included — the ChannelData / pass-through path of `nice_udp_turn_socket_parse_recv`
+    raises no fault, and what it hands up is a sub-range of the packet. -/
+theorem C16_recv_no_fault (s : St) (b : Bytes) (src : Option Nat) (hf : s.fault = false) :
+    (unwrapData s b src).2.fault = false ∧
+    ((unwrapData s b src).1.2 = b ∨
+      ∃ n, 4 + n ≤ b.length ∧ (unwrapData s b src).1.2 = (b.drop 4).take n) := by
+  by_cases hg : (s.compat == Compat.google) = true
+  · simp only [unwrapData, hg, ↓reduceIte]
+    cases s.channels with
+    | nil => exact ⟨hf, Or.inl rfl⟩
+    | cons c cs => exact ⟨hf, Or.inl rfl⟩
+  have hng : (s.compat == Compat.google) = false := by simpa using hg
+  by_cases hie : (s.channels.isEmpty || decide (b.length < 4)) = true
+  · simp [unwrapData, hng, hie, hf]
+  · have hie' : (s.channels.isEmpty || decide (b.length < 4)) = false := by simpa using hie
+    simp only [unwrapData, hng, hie', Bool.false_eq_true, ↓reduceIte]
+    have h4 : 4 ≤ b.length := by
+      simp only [Bool.or_eq_false_iff, decide_eq_false_iff_not] at hie'; omega
+    cases hfind : List.find? (fun x => x.2 == be16 (b.getD 0 0) (b.getD 1 0)) s.channels with
+    | none => exact ⟨hf, Or.inl rfl⟩
+    | some pc =>
+      have c3 : ¬ (4 + min (be16 (b.getD 2 0) (b.getD 3 0)) (b.length - 4) > b.length) := by omega
+      simp only [c3, ↓reduceIte]
+      exact ⟨hf, Or.inr ⟨min (be16 (b.getD 2 0) (b.getD 3 0)) (b.length - 4), by omega, rfl⟩⟩
 
-/-- **negation without the hypothesis** — the defect recorded for C16: channel 0x4000 bound, the
-    6-byte packet `40 00 ff ff 61 62`: the copy reads 6 bytes from offset 4 of a 6-byte packet
-    (corpus/C16/abort/channeldata_len.ops: ASan heap-buffer-overflow in the real code). -/
-theorem C16_recv_fault_witness :
-    (unwrapData { compat := .rfc5766, peers := [], channels := [(0, 0x4000)] } [0x40, 0, 0xff, 0xff, 0x61, 0x62] none).2.fault = true := by
+/-- the former fault (channel 0x4000 bound, the 6-byte packet `40 00 ff ff 61 62`,
+    corpus/C16/channeldata_len.ops): the two bytes that are there are handed up, nothing else is read -/
+example :
+    unwrapData { compat := .rfc5766, peers := [], channels := [(0, 0x4000)] } [0x40, 0, 0xff, 0xff, 0x61, 0x62] none =
+      ((some 0, [0x61, 0x62]), { compat := .rfc5766, peers := [], channels := [(0, 0x4000)] }) := by
   decide
 
 end Nice.Props.C16
